@@ -229,10 +229,10 @@ def run_sat_cases(gen, res):
 def shard(shard, nshards, rng, tier, extra):
     res = Result()
     import random
-    for p in range((1200 if tier == 'quick' else 30000) // nshards):
+    for p in range((3600 if tier == 'quick' else 30000) // nshards):
         pseed = rng.getrandbits(62)                   # every program has its own generator, so that it can be replayed alone
         run_program(random.Random(pseed), res, pseed)
-    saturation(rng, (2500 if tier == 'quick' else 60000) // nshards, res)
+    saturation(rng, (7500 if tier == 'quick' else 60000) // nshards, res)
     return res
 
 def run(seed, tier):
